@@ -46,3 +46,16 @@ Definition cgmy_x_neg_exec (Gup : R -> R -> R) (c g y a b : R) : option R :=
   | Some s, Some t => Some (c * (s - t))
   | _, _ => None
   end.
+
+(* ---------------------------------------------------------------- wave 7 (audit 4, A5): the INTEGRAND handed to scipy.quad, explicit.
+   In [generic_xn quad n a b] the index n stands for "the callable the code passes to quad"; nothing in the term says which
+   function that is.  Here scipy.integrate.quad is a function of its integrand, [Q f a b], specified for EVERY integrand, and the
+   code's four callables are one definition:
+       n = 0  lambda x: self.__call__(x)            n = 1  self.x_nu  (= x * self.__call__(x))
+       n = 2  lambda x: x * x * self.__call__(x)     n >= 3 lambda x: x**n * self.__call__(x)
+   [quad_of Q nu] is the old parameter.  The correspondence probes each recorded callable at a few points against
+   [generic_integrand nu n] (props/C09.py _generic_cases). *)
+Definition generic_integrand (nu : R -> R) (n : nat) : R -> R := fun x => x ^ n * nu x.
+Definition quad_of (Q : (R -> R) -> R -> R -> R) (nu : R -> R) : nat -> R -> R -> R := fun n => Q (generic_integrand nu n).
+Definition quad_fn_spec (Q : (R -> R) -> R -> R -> R) : Prop :=
+  forall f a b, a <= b -> ex_RInt f a b -> is_RInt f a b (Q f a b).
